@@ -39,6 +39,13 @@ CLAIMED = {
          "the model is compared with the five classes on real grids with bit-exact masks; documented u(r), cut/continuity/sign, sigma defaulting through createPRISM and the "
          "contact classification for sigma = every multiple of dr are evaluated on the implementation.",
          "4 C10", "Lean 4 proof (piecewise definitions, continuity, algebra) + differential correspondence"),
+ 'C11': ("Lean theorems about the omega model: closed_form_is_pair_sum (all N >= 1, E != 1), gaussian_E_pos_lt_one, fjc_E_lt_one, gaussian/fjc_is_pair_sum (every k > 0), "
+         "omega_le_N, gaussian/fjc_le_N, gaussian_tendsto_N, gaussian_tendsto_one, fjc_tendsto_N (Filter.Tendsto), ring_is_pair_sum, ring_le_N, ring_at_zero, singleSite_one, "
+         "noIntra_zero; PARTIAL for Koyama/NFJC (kernels are parameters): koyama_is_pair_sum_partial, koyama_le_N_partial, koyama_limit_values_partial, nfjc_is_pair_sum_partial, "
+         "and the negation witness koyama_shipped_limit for the repaired loop defect; float cancellation of the closed form at small k is outside the reals (known finding F10). "
+         "The model is compared with every class/alias on log grids and real Domain k grids; the long-double pair sum, finiteness, <= N, limits, element-wise and ValueError "
+         "predicates are evaluated on the implementation.",
+         "4 C11", "Lean 4 proof (induction, geometric sums, limits) + differential correspondence; partial for Koyama/NFJC kernels"),
 }
 NA = {}
 def main():
